@@ -28,6 +28,7 @@ TARGETS = ["Streams/StreamProofs.vo", "Props/C12.vo"]
 TWO53 = 2 ** 53
 TWO52 = 2 ** 52
 TABLE_LEN = 44
+FILLER_K = 2 ** 51
 MAX_OPS = 40
 
 SPECIAL_SEEDS = [0, 1, -1, 10, 101, -7, 2 ** 31, 2 ** 32 - 1, -(2 ** 32), 2 ** 63, 2 ** 64, 2 ** 64 + 5,
@@ -170,7 +171,8 @@ class Scripted(random.Random):
         self._s, self._p = a, 0
 
     def random(self):
-        k = self.table[self._s][self._p]
+        row = self.table.get(self._s, [])
+        k = row[self._p] if self._p < len(row) else FILLER_K    # beyond the script (only reached by defective code)
         self._p += 1
         return k / TWO53
 
@@ -269,7 +271,8 @@ def tracked(case, outs, table, positions: bool):
         if o[0] == "bad":
             return (f"{kind}-returns-ill-typed-value", f"op #{t} {op}: returned {o[1]}")
         if kind in DRAWS:
-            k = table[st["seed"]][st["pos"]]
+            row = table.get(st["seed"], [])
+            k = row[st["pos"]] if st["pos"] < len(row) else FILLER_K
             st["pos"] += 1
             if kind == "f":
                 if o[0] != "float":
